@@ -113,15 +113,25 @@ Section Tables.
   Lemma bend_owner_ne b s : In b (cuts C) -> owner C (bend s b) <> owner C (bend (negb s) b).
   Proof. intros H. destruct (cut_ends b H) as (_ & _ & N). destruct s; cbn; congruence. Qed.
 
-  Lemma descs_in x d : In d (descs C x) <-> exists b s, In b (cuts C) /\ bend s b = x /\ d = dtext s b.
+  Lemma descs0_in x d : In d (descs0 C x) <-> exists b s, In b (cuts C) /\ bend s b = x /\ d = dtext s b.
   Proof.
-    unfold descs. rewrite in_flat_map. split.
+    unfold descs0. rewrite in_flat_map. split.
     - intros (b & Hb & Hd). apply in_app_or in Hd as [Hd|Hd].
       + destruct (Z.eqb_spec (cb_u b) x) as [E|]; [|contradiction]. destruct Hd as [<-|[]]. exists b, true. auto.
       + destruct (Z.eqb_spec (cb_v b) x) as [E|]; [|contradiction]. destruct Hd as [<-|[]]. exists b, false. auto.
     - intros (b & s & Hb & E & ->). exists b. split; [exact Hb|]. apply in_or_app. destruct s; cbn in E; subst x.
       + left. rewrite Z.eqb_refl. now left.
       + right. rewrite Z.eqb_refl. now left.
+  Qed.
+
+  Lemma descs_perm0 x : Permutation (descs C x) (descs0 C x).
+  Proof.
+    unfold descs. destruct (find _ (c_dord C)) as [kv|] eqn:E; [|reflexivity]. apply find_some in E as [Hin Hk].
+    apply Z.eqb_eq in Hk. subst x. exact (wc_dord C W kv Hin).
+  Qed.
+  Lemma descs_in x d : In d (descs C x) <-> exists b s, In b (cuts C) /\ bend s b = x /\ d = dtext s b.
+  Proof.
+    rewrite <- descs0_in. split; apply Permutation_in; [apply descs_perm0|apply Permutation_sym, descs_perm0].
   Qed.
 
   (** one text, two occurrences: the same cut bond; the same end unless the bond is `$` *)
@@ -132,9 +142,9 @@ Section Tables.
     split; [reflexivity|]. destruct s, s'; auto; right; [|symmetry in K]; now apply kind_char_sides.
   Qed.
 
-  Lemma descs_nodup x : NoDup (descs C x).
+  Lemma descs0_nodup x : NoDup (descs0 C x).
   Proof.
-    unfold descs. apply NoDup_flat_map; [exact cuts_nodup| |].
+    unfold descs0. apply NoDup_flat_map; [exact cuts_nodup| |].
     - intros b Hb. destruct (cut_ends b Hb) as (_ & _ & N).
       destruct (Z.eqb_spec (cb_u b) x) as [E1|], (Z.eqb_spec (cb_v b) x) as [E2|]; cbn;
         [exfalso; apply N; congruence| | |]; repeat constructor; tauto.
@@ -147,6 +157,9 @@ Section Tables.
           destruct Hd' as [<-|[]]; eauto. }
       apply Nbb. now destruct (text_unique b s b' s' Hb Hb' E).
   Qed.
+
+  Lemma descs_nodup x : NoDup (descs C x).
+  Proof. eapply Permutation_NoDup; [apply Permutation_sym, descs_perm0|apply descs0_nodup]. Qed.
 
   (** inside one part a text is written on one atom only *)
   Lemma desc_one_atom x x' d : owner C x = owner C x' -> In d (descs C x) -> In d (descs C x') -> x = x'.
